@@ -269,10 +269,10 @@ def execute(hist):
         key = json.dumps({
             "ws": sorted(idx_of.get(n, n) for n in os.listdir(os.path.join(d, "workspace"))),
             "file": None if content is None else sorted(idx_of.get(n, n) for n in content),
-            "mem": sorted(idx_of.get(n, n) for n in session._sp_cache),
-            "read": session._sp_cache_read,
+            "mem": sorted(idx_of.get(n, n) for n in getattr(session, "_sp_cache", ())),
+            "read": getattr(session, "_sp_cache_read", None),
             # entries whose value does not hash to their key (impossible as long as the cache is content-addressed)
-            "mem_inconsistent": sorted(idx_of.get(n, n) for n, v in session._sp_cache.items() if _hash_or_none(v) != n),
+            "mem_inconsistent": sorted(idx_of.get(n, n) for n, v in getattr(session, "_sp_cache", {}).items() if _hash_or_none(v) != n),
             "file_inconsistent": sorted(idx_of.get(n, n) for n, v in (content or {}).items() if _hash_or_none(v) != n),
         }, sort_keys=True, default=str)
     return {"key": key, "enabled": [list(o) for o in ops()], "viol": viol, "n": ncalls,
@@ -281,6 +281,80 @@ def execute(hist):
 
 def _exec(hist):
     return execute(tuple(tuple(o) for o in hist))
+
+
+def _thread_item(item):
+    """update_cache / find_jobs read the state points of uncached jobs in a thread pool: every interleaving of those
+    threads (<= bound preemptions, scheduling points before every open / stat / listing system call) must give the serial answer."""
+    import itertools  # noqa
+
+    import signac
+    import signac.project as sproj
+
+    from .. import engine_t
+    present, cached, bound, salt, n_sp = item
+    global _N, _SALT
+    _N, _SALT = n_sp, salt
+    pts = sps()
+    ids = [canon.job_id(x) for x in pts]
+    want = {"ids": sorted(ids[i] for i in present), "cache": {ids[i]: pts[i] for i in present},
+            "find": sorted(ids[i] for i in present if pts[i]["k"] > 0), "ret_positive": True}
+
+    def run_once(sched):
+        with scratch.fresh("c08t") as d:
+            p0 = signac.init_project(d)
+            for i in cached:
+                p0.open_job(pts[i]).init()
+            if cached:
+                p0.update_cache()
+            for i in cached:
+                if i not in present:
+                    p0.open_job(pts[i]).remove()
+            for i in present:
+                p0.open_job(pts[i]).init()
+            orig = getattr(sproj, "ThreadPool", None)
+            if orig is not None:
+                sproj.ThreadPool = engine_t.make_pool_class(sched)
+            try:
+                p = signac.Project(d)
+                found = sorted(j.id for j in p.find_jobs({"k": {"$gt": 0}}))
+                p = signac.Project(d)
+                ret = p.update_cache()
+                got_ids = sorted(j.id for j in p)
+                sp_seen = {i: canon.plain(p.open_job(id=i).statepoint()) for i in got_ids}
+            finally:
+                if orig is not None:
+                    sproj.ThreadPool = orig
+            return json.dumps({"ids": got_ids, "cache": read_cache_file(d), "find": found, "sp": sp_seen,
+                               "ret_positive": sorted(present) == sorted(cached) or bool(ret)}, sort_keys=True)
+    res = engine_t.explore(run_once, bound, mutating_only=False)
+    want_s = json.dumps(dict(want, sp=want["cache"]), sort_keys=True)
+    viol = []
+    for obs, sched in res["observations"].items():
+        if obs != want_s:
+            viol.append({"sig": {"kind": "thread-schedule-changes-cache-or-query"}, "scenario": "threads",
+                         "input": {"threads": True, "present": list(present), "cached": list(cached), "bound": bound, "salt": salt,
+                                   "n_statepoints": n_sp, "schedule": sched},
+                         "expected": want_s[:600], "observed": obs[:600],
+                         "msg": f"jobs {list(present)} (cache file lists {list(cached)}): under thread schedule {sched} find_jobs / "
+                                f"update_cache / open by id give {obs[:300]}, expected {want_s[:300]}"})
+    return {"cls": f"threads:{len(present)}", "viol": viol[:2], "n": res["schedules"],
+            "nt": f"threads|{present}|{cached}|{res['points_max']}",
+            "counters": {"thread_schedules": res["schedules"], "thread_harnesses": 1,
+                         "thread_harnesses_with_2+_threads": int(res["schedules"] > 1),
+                         "thread_harnesses_without_controlled_pool": int(res["pools_seen"] == 0)}}
+
+
+def _thread_items(ctx):
+    import itertools
+    n = 3 if ctx.quick else 4
+    idx = range(n)
+    for r in range(1, n + 1):
+        for present in itertools.combinations(idx, r):
+            for cr in range(0, n + 1):
+                for cached in itertools.combinations(idx, cr):
+                    if len(set(present) - set(cached)) >= 2 or (ctx.quick is False and set(present) != set(cached)):
+                        yield (present, cached, 2 if len(present) <= 3 else 1, ctx.seed, n)
 
 
 def run(ctx):
@@ -298,6 +372,13 @@ def run(ctx):
     })
     if not st.closed:
         report.harness_errors.append("state space did not close within the depth guard")
+    from .. import engine_i
+    tot = engine_i.run_items(ctx, _thread_items(ctx), _thread_item, chunk=1)
+    report.violations.extend(tot.viol)
+    report.harness_errors.extend(tot.herr)
+    report.coverage["threads"] = dict(tot.counters, rule="engine T: every interleaving with <= 2 preemptions of the pool threads "
+                                      "that read uncached state points (find_jobs, update_cache), for every (workspace subset, "
+                                      "cached subset) with >= 2 uncached jobs", distinct=len(tot.nt))
     report.assumptions += ["state abstraction: cache values are determined by their id (content hash), so key sets suffice",
                            "rewrites of the cache file are detected by inode/mtime change",
                            "job handles are not retained across events (every event opens its own handle)"]
@@ -308,4 +389,7 @@ def replay(payload, ctx):
     global _N, _SALT
     _N = payload["input"].get("n_statepoints", 2)
     _SALT = payload["input"].get("salt", 0)
+    if payload["input"].get("threads"):
+        i = payload["input"]
+        return _thread_item((tuple(i["present"]), tuple(i["cached"]), i["bound"], i["salt"], i["n_statepoints"]))["viol"]
     return _exec(payload["input"]["history"])["viol"]
